@@ -49,6 +49,7 @@ var OpTemplates = []opTemplate{
 	{Text: "where b > 1", Needs: []string{"b"}},
 	{Text: "sort by a asc, a desc", Needs: []string{"a"}, Sort: []SortFlags{{true, true}, {false, false}}},
 	{Text: "sort by b desc nulls first, a, b asc", Needs: []string{"a", "b"}, Sort: []SortFlags{{false, true}, {false, false}, {true, true}}},
+	{Text: "render k with (q = 'v', p = 1, a = 'w')"},
 }
 
 // mixTemplates are the operators of H_C02mix: filters on two columns, limits, sorts, top,
